@@ -37,8 +37,10 @@ def bound(x, N):
     raise ExportError(f'bound {x!r}')
 
 
-def pyexpr(src, N):
+def pyexpr(src, N, user_names=()):
     src = src.strip()
+    if src in user_names and src.isidentifier():
+        return ['var', N.nm(src)]        # a user binder that happens to be spelled like a builtin
     if src == 'None':
         return 'pnone'
     if src == 'True':
@@ -115,6 +117,26 @@ class Exporter:
         self.rx = []          # (pattern, ignore_case)
         self.funs = []        # lifted argument functions: [params, body]
         self.flags = []       # (always, partial) in preorder of the exported nodes, per rule
+        self.user_names = set()
+
+    def _collect_user_names(self, x):
+        """names bound by lets, class members and parameters anywhere in the grammar"""
+        if isinstance(x, (list, tuple)):
+            for y in x:
+                self._collect_user_names(y)
+            return
+        if not hasattr(x, '__dict__') or type(x).__module__.split('.')[0] != 'sourcer':
+            return
+        n = type(x).__name__
+        if n == 'Let':
+            self.user_names.add(x.name)
+        if n in ('Rule', 'Class') and getattr(x, 'params', None):
+            self.user_names.update(x.params)
+        if n == 'Class':
+            self.user_names.update(m.name for m in x.members if m.name)
+        for v in vars(x).values():
+            if isinstance(v, (list, tuple)) or hasattr(v, '__dict__'):
+                self._collect_user_names(v)
 
     def chk(self, e):
         n = type(e).__name__
@@ -177,7 +199,7 @@ class Exporter:
             return ['Sep', self.ex(e.expr, acc), self.ex(e.separator, acc), bool(e.discard_separators),
                     bool(e.allow_trailer), bool(e.allow_empty), bool(e.require_separator)]
         if n == 'PythonExpression':
-            return ['Py', pyexpr(e.source_code, N)]
+            return ['Py', pyexpr(e.source_code, N, self.user_names)]
         if n == 'Apply':
             return ['Apply', self.ex(e.expr1, acc), self.ex(e.expr2, acc), bool(e.apply_left)]
         if n == 'Where':
@@ -205,7 +227,7 @@ class Exporter:
                 elif t == 'Ref':
                     av = ['local', N.nm(x.name)]
                 elif t == 'PythonExpression':
-                    av = ['py', pyexpr(x.source_code, N)]
+                    av = ['py', pyexpr(x.source_code, N, self.user_names)]
                 elif t == 'Str':
                     av = ['strlit', codes(x.value), bool(x.skip_ignored)]
                 else:
@@ -221,6 +243,8 @@ class Exporter:
     def rule(self, r):
         n = self.chk(r)
         acc = []
+        self.user_names = set()             # binders are scoped per generated rule function
+        self._collect_user_names(r)
         params = [self.N.nm(p) for p in (r.params or [])]
         if n == 'Class':
             ms = []
